@@ -263,6 +263,20 @@ PROPS["C13"] = {
 }
 
 
+PROPS["C14"] = {
+    "level": "exploration",
+    "engine": "opfuzz + vsched",
+    "level_text": "(loop) generated histories of creating and removing timers (intervals 1..50 ms, bursts created in the same virtual millisecond so that three and more due times coincide), paired clients, loopback listeners with incoming connections, establishers to a live listener and to a closed port, peer writes / closes, suspend / resume, client writes and interrupt(), executed between runs and - through a reaction script - from inside every kind of callback, including removal of the object whose callback is running and of objects with a pending event; the harness owns the clock and epoll_wait (virtual time, generated order and subsets of ready descriptors); (interrupt) a second part runs run() and interrupt() on two logical threads under the deterministic scheduler",
+    "level_note": "trusted: the wrappers in harness/srv_common.hpp (virtual clock, epoll_wait with time-out 0 and idle hook), the timer / registration model in harness/c14_loop.cpp, the kernel's loopback sockets; 'eventually dispatched' is checked as 'before the loop goes idle' for socket-pair clients; accepted TCP connections are only checked for accept / removal behaviour",
+    "technique": "stateful property-based testing with a reaction script executed inside callbacks, virtual time and generated readiness order; randomised deterministic scheduling for the interrupt race",
+    "rule": "loop: 3..size top-level ops (incl. 'run' for a generated virtual duration ended by a watchdog interrupt), 0..size reactions, 0..11 readiness permutations. Oracle: activation k of a timer at virtual time >= start + k*interval, at most once per k, activations in non-decreasing due order, no timer due when the loop goes idle and no sleep beyond a due time; no callback of any kind after remove() returned; onRead only when not suspended, a readable or peer-closed pair client is dispatched before the loop goes idle, a failed read/write is followed by onClosed, onClosed only after a failure, establishers notified exactly once with the right kind; run() returns only after interrupt() and within 300 poll rounds of it. "
+            "Non-trivial = (>=3 coinciding due times AND a removal among them) OR a removal of an object with a pending event OR a timer removing itself from its callback together with other actions inside callbacks; interrupt part: case = 1-3 runs, delays before each run and each interrupt, duplicate interrupts, optional timer; 10 schedules per case; oracle: every run() returns after its interrupt, less than 290 s of virtual time later (not by the default time-out), no deadlock; non-trivial = a schedule with >=4 context switches (interrupt while the loop polls) or an interrupt issued before run() started; distinct by case text hash.",
+    "assumptions": ["Server::time gets interval >= 1", "Server objects are used from the loop thread; only interrupt() is called from another thread"],
+    "parts": [opf("loop", ["harness/c14_loop.cpp"], {"cases": 150000, "maxsize": 40}, {"cases": 1500000, "maxsize": 80, "workers": 16}, ldflags=SRV_WRAPS, deps=["harness/srv_common.hpp"]),
+              opf("interrupt", ["harness/c14_interrupt.cpp"], {"cases": 1500, "maxsize": 4}, {"cases": 20000, "maxsize": 4, "workers": 16}, flavour="sched", wraps=["epoll_wait", "write"], plain_sources=["vsched/rt_io.cpp"], deps=["harness/vs_common.hpp"])],
+}
+
+
 # property modules kept in separate files (props_cXX.py define PROPS["CXX"] using the helpers above)
 import glob as _glob, os as _os
 for _f in sorted(_glob.glob(_os.path.join(_os.path.dirname(_os.path.abspath(__file__)), "props_c*.py"))):
